@@ -244,13 +244,24 @@ func (l *live) modelKey() string {
 	return fmt.Sprintf("%s|dsse=%v|foreign-bytes=%v|%s", l.content, l.dsse, l.foreign, strings.Join(s, ","))
 }
 
+func reversed(l []string) []string {
+	out := make([]string, len(l))
+	for i, x := range l {
+		out[len(l)-1-i] = x
+	}
+	return out
+}
+
 // invariant checks one state; returns signature and observation of the first violation.
 func (l *live) invariant() (sig, obs string) {
 	wr := "legacy"
 	if l.dsse {
 		wr = "dsse"
 	}
-	for _, name := range observers {
+	// every observer twice, the second time in the opposite order: verifying is repeatable and leaves the
+	// metadata as it was, whichever key was asked about before
+	twice := append(append([]string{}, observers...), reversed(observers)...)
+	for _, name := range twice {
 		k := gen.Key(name)
 		err := l.md.VerifySignature(k.Pub)
 		want := l.signers[name]
